@@ -117,7 +117,7 @@ def run_property(spec, tier, seed, replay=None, jobs=16):
     # ------------------------------------------------------------ Engine A
     a_results = []
     if not replay:
-        jobsA = [(spec["sidecars"], key, budget) for key in spec.get("functions", [])]
+        jobsA = [(spec.get("function_sidecars", {}).get(key, spec["sidecars"]), key, budget) for key in spec.get("functions", [])]
         lem = [(m, budget) for m in spec.get("lemma_modules", [])]
         if jobsA or lem:
             ctx = mp.get_context("fork")
